@@ -121,7 +121,7 @@ def fault_store(kind, db_path=None, **kw):
 class Proc:
     """One emulated server process."""
 
-    def __init__(self, spec, store, *, idle_timeout=1000.0, backoff=(0.5, 3), name="wf"):
+    def __init__(self, spec, store, *, idle_timeout=1000.0, backoff=(0.5, 3), name="wf", stack="inproc", lifecycle_db=None, create_rows=False):
         import llama_agents.server.server as srv
         import workflows.plugins.basic as basic
         from llama_agents.server import WorkflowServer
@@ -139,7 +139,13 @@ class Proc:
         except Exception:  # noqa: BLE001
             pass
         self.store = store
-        self.server = WorkflowServer(workflow_store=store, idle_timeout=idle_timeout, persistence_backoff=list(backoff))
+        if stack == "dbos_sub":
+            # DBOS server stack with the DBOS engine substituted: the real DBOSIdleReleaseDecorator / EventInterceptorDecorator /
+            # TickPersistenceDecorator / SqliteRunLifecycleLock chain (as DBOSRuntime.build_server_runtime wires it) over a BasicRuntime
+            self.dbos_runtime = build_dbos_substitute(fresh, store, idle_timeout, lifecycle_db)
+            self.server = WorkflowServer(workflow_store=store, runtime=self.dbos_runtime, persistence_backoff=list(backoff))
+        else:
+            self.server = WorkflowServer(workflow_store=store, idle_timeout=idle_timeout, persistence_backoff=list(backoff))
         self.wf = programs.make_instance(spec)
         self.name = name
         self.server.add_workflow(name, self.wf)
@@ -173,6 +179,79 @@ class Proc:
 
         found = await type(self.store).__mro__[1].query(self.store, HandlerQuery(handler_id_in=[handler_id]))
         return found[0] if found else None
+
+
+def build_dbos_substitute(basic, store, idle_timeout, lifecycle_db):
+    """DBOSRuntime.build_server_runtime's chain with `basic` in DBOSRuntime's place.  The `DBOS` name used by
+    llama_agents.dbos.idle_release (retrieve_workflow_async / delete_workflow_async) is bound to the substitute engine."""
+    import sqlite3
+
+    import llama_agents.dbos.idle_release as ir
+    import llama_agents.dbos.journal.lifecycle as lc
+    from llama_agents.server._runtime.event_interceptor import EventInterceptorDecorator
+    from llama_agents.server._runtime.persistence_runtime import TickPersistenceDecorator
+
+    vclock.patch_datetime(ir, lc)
+    if not os.path.exists(lifecycle_db):
+        conn = sqlite3.connect(lifecycle_db)
+        mig = os.path.join(os.environ.get("VERIF_REPO", "/repo"), "packages/llama-agents-dbos/src/llama_agents/dbos/_store/sqlite/migrations/0001_init.sql")
+        conn.executescript(open(mig).read())
+        conn.commit()
+        conn.close()
+
+    class _Handle:
+        def __init__(self, q):
+            self.q = q
+
+        async def get_result(self):
+            return await self.q.complete
+
+    class SubDBOS:
+        """what idle_release needs from the engine: wait for a workflow id to finish; purge it so the id can be reused"""
+        calls = []
+
+        @staticmethod
+        async def retrieve_workflow_async(run_id):
+            SubDBOS.calls.append(("retrieve", run_id, vclock.vnow()))
+            q = basic._queues.get(run_id)
+            if q is None:
+                raise RuntimeError(f"no workflow {run_id}")
+            return _Handle(q)
+
+        @staticmethod
+        async def delete_workflow_async(run_id):
+            SubDBOS.calls.append(("delete", run_id, vclock.vnow()))
+            basic._queues.pop(run_id, None)
+
+    from workflows.runtime.runtime_decorators import BaseRuntimeDecorator
+
+    class SubEngine(BaseRuntimeDecorator):
+        """DBOSRuntime's place in the chain.  Like DBOSRuntime it does not build an in-memory state store from
+        `serialized_state`: workflow state lives in the workflow store's state store, keyed by run_id (same run_id on resume)."""
+
+        def run_workflow(self, run_id, workflow, init_state, start_event=None, serialized_state=None, serializer=None):
+            SubDBOS.calls.append(("run_workflow", run_id, vclock.vnow()))
+            return self._decorated.run_workflow(run_id, workflow, init_state, start_event=start_event, serialized_state=None, serializer=serializer)
+
+    ir.DBOS = SubDBOS
+    SubDBOS.calls = []
+    tick_persistence = TickPersistenceDecorator(SubEngine(basic), store)
+    rt = ir.DBOSIdleReleaseDecorator(EventInterceptorDecorator(tick_persistence), store=store, idle_timeout=idle_timeout, journal_crud=None,
+                                     lifecycle_lock=lambda: lc.SqliteRunLifecycleLock(lifecycle_db))
+    rt.vf_sub = SubDBOS
+    return rt
+
+
+def lifecycle_rows(lifecycle_db):
+    import sqlite3
+
+    if not os.path.exists(lifecycle_db):
+        return {}
+    c = sqlite3.connect(lifecycle_db)
+    try:
+        return {r[0]: r[1] for r in c.execute("SELECT run_id, state FROM run_lifecycle")}
+    finally:
+        c.close()
 
 
 def handler_view(h):
